@@ -18,11 +18,14 @@ def build(b, sym, tier):
     for c in layout:
         r = b.run("create", root=c, h=["md5"])
         b.require(r.exit == 0, "setup-create", "%s %s" % (c, r))
-    gens = sym.choose("root_generations", [1, 2] if tier == "quick" else [1, 2, 3])
+    # 0: the folder the command is started on has no history of its own yet, only the nested ones
+    gens = sym.choose("root_generations", [1, 2, 0] if tier == "quick" else [1, 2, 3, 0])
+    if gens == 0 and not layout:
+        sym.assume(False)
     for g in range(gens):
         r = b.run("create", root="R", h=[["xxh64"], ["md5", "c4"], ["sha1"]][g])
         b.require(r.exit == 0 and r.exc is None, "setup-create", "root gen %d %s" % (g, r))
-    return files, sorted(set(layout + ["R"]))
+    return files, sorted(set(layout + (["R"] if gens else [])))
 
 
 def scenario(tier):
@@ -52,6 +55,8 @@ def scenario(tier):
                 what = "manifest %s of %s removed" % (name[:4], hist)
         b.note(what)
         cmd = sym.choose("command", COMMANDS)
+        if "R" not in roots and cmd != "create":
+            sym.assume(False)  # (the other commands need a history at the folder they are started on)
         before = b.snapshot("")
         if cmd == "create":
             r = b.run("create", root="R", h=["md5"])
